@@ -18,7 +18,6 @@ MODEL_CONSTS = {"KB": 1000, "MB": 10 ** 6, "GB": 10 ** 9, "DefaultBurstSize": 48
                 "sliceMeterGateUnmeter": 6, "farForwardU": 1, "farForwardD": 0, "StatusCreated": 201,
                 "StatusBadRequest": 400, "StatusMethodNotAllowed": 405, "upfMsgTypeAdd": 0, "idx_15_3": 63}
 QOS_TYPE = "type.googleapis.com/bess.pb.QosCommandAddArg"
-SIG_UP4_BURST = "up4:pburst-negative:burst>=2^63"
 
 
 def factor(unit):
@@ -455,11 +454,11 @@ def monitor(c, o, meter_id):
         return None
     if x["pir"] != max(cu, cd):
         return ("up4:rate", f"pir {x['pir']} != max of converted rates {cu}, {cd}")
+    # P4Runtime's pburst is an int64: a posted burst >= 2^63 can only be carried saturated at 2^63-1
     allowed = {d["ulb"]} if cu > cd else ({d["dlb"]} if cd > cu else {d["ulb"], d["dlb"]})
+    allowed = {min(b, M63 - 1) for b in allowed}
     if x["pburst"] not in allowed:
-        if x["pburst"] < 0 and (x["pburst"] + M64) in allowed:
-            return (SIG_UP4_BURST, f"posted burst {x['pburst'] + M64} reaches MeterConfig.pburst as {x['pburst']}")
-        return ("up4:burst", f"pburst {x['pburst']} is not the posted burst of the larger side {sorted(allowed)}")
+        return ("up4:burst", f"pburst {x['pburst']} is not the posted burst of the larger side {sorted(allowed)} (saturated at 2^63-1)")
     return None
 
 
@@ -667,7 +666,7 @@ def run(tier, seed, replay=None):
             nt = nt or (i > 0 and r["cls"] == "valid" and r["method"] in ("PUT", "POST"))
             m = monitor(c, o, meter_id)
             if m:
-                sig = m[0] if m[0] == SIG_UP4_BURST else "history:" + m[0]
+                sig = "history:" + m[0]
                 ck.fail(sig, f"request {i + 1} of a history of {len(q['reqs'])} on one handler ({q['label']}): " + m[1],
                         {"input": q, "failing_request": i + 1,
                          "bodies": [base64.b64decode(x["body_b64"]).decode("latin-1") for x in q["reqs"]], "impl": so})
